@@ -103,10 +103,12 @@ func (c18) Rule() string {
 
 const c18Dim = 3
 
-var c18SchemaJSON = `{"vf":{"type":"vectorFlat","vectorFlat":{"vectorSize":3,"distanceMetric":"euclidean"}},"vv":{"type":"vectorVamana","vectorVamana":{"vectorSize":3,"distanceMetric":"cosine","searchSize":75,"degreeBound":64,"alpha":1.2}},"s":{"type":"string","string":{"caseSensitive":false}},"n":{"type":"integer"},"f":{"type":"float"},"t":{"type":"text","text":{"analyser":"standard"}},"tags":{"type":"stringArray","stringArray":{"caseSensitive":true}}}`
+var c18SchemaJSON = `{"vf":{"type":"vectorFlat","vectorFlat":{"vectorSize":3,"distanceMetric":"euclidean"}},"vv":{"type":"vectorVamana","vectorVamana":{"vectorSize":3,"distanceMetric":"cosine","searchSize":75,"degreeBound":64,"alpha":1.2}},"s":{"type":"string","string":{"caseSensitive":false}},"n":{"type":"integer"},"f":{"type":"float"},"t":{"type":"text","text":{"analyser":"standard"}},"tags":{"type":"stringArray","stringArray":{"caseSensitive":true}},"geo.home.coords":{"type":"vectorFlat","vectorFlat":{"vectorSize":3,"distanceMetric":"euclidean"}},"a.b.c":{"type":"integer"}}`
 
 func c18Point(r *rand.Rand, id int) map[string]any {
-	return map[string]any{"_id": PID(id).String(), "vf": []any{float64(r.IntN(9)), 1.0, 2.0}, "vv": []any{0.6, 0.8, 0.0}, "s": pick(r, []string{"x", "Y", "zed"}), "n": float64(r.IntN(50)), "f": 1.5, "t": "quick brown fox", "tags": []any{"a", "b"}, "meta": map[string]any{"k": "v"}}
+	return map[string]any{"_id": PID(id).String(), "vf": []any{float64(r.IntN(9)), 1.0, 2.0}, "vv": []any{0.6, 0.8, 0.0}, "s": pick(r, []string{"x", "Y", "zed"}), "n": float64(r.IntN(50)), "f": 1.5, "t": "quick brown fox", "tags": []any{"a", "b"}, "meta": map[string]any{"k": "v"},
+		// indexed properties three levels deep (validation and conversion must follow the whole path)
+		"geo": map[string]any{"home": map[string]any{"coords": []any{float64(r.IntN(9)), 2.0, 1.0}}}, "a": map[string]any{"b": map[string]any{"c": float64(r.IntN(20))}}}
 }
 
 // base requests: (method, path, body tree, label when unmutated)
@@ -151,6 +153,7 @@ func c18BasesMain(r *rand.Rand, nextID *int) []c18Base {
 	}
 	id := func() string { return PID(r.IntN(max(*nextID, 1))).String() }
 	searches := []map[string]any{
+		{"query": map[string]any{"property": "geo.home.coords", "vectorFlat": map[string]any{"vector": v(), "operator": "near", "limit": 5.0, "filter": map[string]any{"property": "a.b.c", "integer": map[string]any{"value": 3.0, "operator": "greaterThan"}}}}, "limit": 5.0, "select": []any{"geo.home", "a.b.c"}},
 		{"query": map[string]any{"property": "vf", "vectorFlat": map[string]any{"vector": v(), "operator": "near", "limit": 5.0}}, "limit": 5.0},
 		{"query": map[string]any{"property": "vv", "vectorVamana": map[string]any{"vector": []any{0.6, 0.8, 0.0}, "operator": "near", "searchSize": 50.0, "limit": 5.0}}, "limit": 5.0, "select": []any{"s", "meta.k"}},
 		{"query": map[string]any{"property": "t", "text": map[string]any{"value": "quick fox", "operator": "containsAny", "limit": 10.0}}, "limit": 10.0},
@@ -298,7 +301,7 @@ func deepNest(n int) any {
 
 func isVectorPath(p c18Path) bool {
 	for _, k := range p {
-		if s, ok := k.(string); ok && (s == "vector" || s == "vf" || s == "vv") {
+		if s, ok := k.(string); ok && (s == "vector" || s == "vf" || s == "vv" || s == "coords") {
 			return true
 		}
 	}
